@@ -78,7 +78,7 @@ fn item<C: Suite>(ctx: &mut Ctx, n: u16, t: u16, k: usize, kind: &str) {
     let pkg_b2 = SigningPackage::new(sa.comms.clone(), &msg_c);
     let mut sh_b2 = BTreeMap::new();
     for id in &signers {
-        match frost_core::round2::sign(&pkg_b2, &sa.nonces[id], &grp.kps[id]) {
+        match C::api_sign(&pkg_b2, &sa.nonces[id], &grp.kps[id]) {
             Ok(s) => {
                 sh_b2.insert(*id, s);
             }
@@ -207,7 +207,7 @@ fn item<C: Suite>(ctx: &mut Ctx, n: u16, t: u16, k: usize, kind: &str) {
         }
     }
     if let Some(o) = outsiders.first() {
-        let (_, oc) = frost_core::round1::commit::<C, _>(grp.kps[o].signing_share(), &mut rng);
+        let (_, oc) = C::api_commit(grp.kps[o].signing_share(), &mut rng);
         let mut cm = a.s.comms.clone();
         cm.insert(*o, oc);
         variants.push(("set/added".into(), SigningPackage::new(cm, &a.msg), vk));
@@ -255,6 +255,32 @@ fn item<C: Suite>(ctx: &mut Ctx, n: u16, t: u16, k: usize, kind: &str) {
     }
     ctx.class(format!("S={k}/claimed-identifier"));
 
+    // ---- 2b. the share map names signers that are not in the package --------------------------
+    {
+        let zero_share = SignatureShare::<C>::deserialize(&sc_bytes::<C>(&zero::<C>())).unwrap();
+        let mut extras: Vec<(&str, Identifier<C>, SignatureShare<C>)> = vec![];
+        if let Some(o) = outsiders.first() {
+            extras.push(("member-zero-share", *o, zero_share));
+            extras.push(("member-share-of-a-signer", *o, a.s.shares[&signers[0]]));
+        }
+        if let Ok(stranger) = Identifier::<C>::try_from(60_001u16) {
+            if !grp.ids.contains(&stranger) {
+                extras.push(("stranger-zero-share", stranger, zero_share));
+            }
+        }
+        for (nm, id, sh) in extras {
+            let mut m = a.s.shares.clone();
+            m.insert(id, sh);
+            for (mode, mname) in [(CheaterDetection::FirstCheater, "first"), (CheaterDetection::AllCheaters, "all"), (CheaterDetection::Disabled, "disabled")] {
+                match frost_core::aggregate_custom(&a.s.pkg, &m, &grp.pkp, mode) {
+                    Err(e) => ctx.count(&format!("share-map-superset/{nm}/{}", err_name(&e))),
+                    Ok(_) => ctx.viol("share-map-not-bound-to-signer-set", &format!("{nm}/{mname}"), d("aggregate accepted a share map naming a participant that is not in the signing package", json!({"extra": id_hex::<C>(&id)}))),
+                }
+            }
+            ctx.class(format!("S={k}/share-map-superset/{nm}"));
+        }
+    }
+
     // ---- 3. the signer's own entry ---------------------------------------------------------
     for id in &signers {
         let ca = a.s.comms[id];
@@ -295,14 +321,14 @@ fn item<C: Suite>(ctx: &mut Ctx, n: u16, t: u16, k: usize, kind: &str) {
         }
         for (nm, cm) in cases {
             let pkg = SigningPackage::new(cm, &a.msg);
-            match frost_core::round2::sign(&pkg, &a.s.nonces[id], &grp.kps[id]) {
+            match C::api_sign(&pkg, &a.s.nonces[id], &grp.kps[id]) {
                 Err(e) => ctx.count(&format!("own-entry/{nm}/{}", err_name(&e))),
                 Ok(_) => ctx.viol("signs-with-wrong-own-entry", nm, d("sign returned Ok", json!({"signer": id_hex::<C>(id)}))),
             }
             ctx.class(format!("S={k}/{nm}"));
         }
         // nonces from session B with package A (own entry differs from the nonces' commitments)
-        match frost_core::round2::sign(&a.s.pkg, &b1.s.nonces[id], &grp.kps[id]) {
+        match C::api_sign(&a.s.pkg, &b1.s.nonces[id], &grp.kps[id]) {
             Err(e) => ctx.count(&format!("own-entry/nonces-of-B/{}", err_name(&e))),
             Ok(_) => ctx.viol("signs-with-wrong-own-entry", "nonces-of-B", d("sign returned Ok with another session's nonces", json!({"signer": id_hex::<C>(id)}))),
         }
@@ -324,7 +350,7 @@ fn item<C: Suite>(ctx: &mut Ctx, n: u16, t: u16, k: usize, kind: &str) {
                 if id == idj {
                     continue; // refused by the own-entry check; the identity check is what is probed
                 }
-                match frost_core::round2::sign(&pkg, &a.s.nonces[id], &grp.kps[id]) {
+                match C::api_sign(&pkg, &a.s.nonces[id], &grp.kps[id]) {
                     Err(e) => ctx.count(&format!("identity/{nm}/sign/{}", err_name(&e))),
                     Ok(_) => ctx.viol("identity-commitment-accepted", &format!("sign/{nm}"), d("sign returned Ok for a package with an identity commitment", json!({"slot": j, "signer": id_hex::<C>(id)}))),
                 }
